@@ -179,9 +179,11 @@ def runMonitor (cfgF : Fields) (ops : List (Nat × Fields)) : String :=
   let obs := ops.filterMap fun (_, f) => parseObs f
   match ops.find? (fun (_, f) => getD f "ret" "" = "deadlock") with
   | some (ln, f) =>
-    s!"FAILS prop=C16 clause=reentrant_callback_deadlocks line={ln} step={ops.length - 1} detail=operation_{getD f "op" ""}_never_returned_(callback_invoked_under_a_cache_lock)"
+    s!"FAILS prop=C16 clause=reentrant_callback_deadlocks line={ln} step={ops.length - 1} detail=operation_{getD f "op" ""}_never_returned_(callback_or_destructor_invoked_under_a_cache_lock)"
   | none =>
-  if obs.length ≠ ops.length then "FAILS prop=- clause=unparsable step=0 detail=unparsable-line"
+  -- a cache built without an event listener shows no notifications: only the stall check applies
+  if getD cfgF "listener" "1" = "0" then "HOLDS"
+  else if obs.length ≠ ops.length then "FAILS prop=- clause=unparsable step=0 detail=unparsable-line"
   else match Mon.run p (getNatD cfgF "cap" 0) obs with
     | none => "HOLDS"
     | some (i, fl) =>
